@@ -999,7 +999,7 @@ def _i_typeref(ref):
     if k == "LIST":
         s, ok = _i_typeref(ref.get("ofType"))
         return "[" + s + "]", ok
-    return ref.get("name"), ref.get("name") is not None
+    return (ref.get("name") or "?"), ref.get("name") is not None
 
 
 _KIND = {"SCALAR": "scalar", "OBJECT": "object", "INTERFACE": "interface", "UNION": "union", "ENUM": "enum", "INPUT_OBJECT": "input"}
@@ -1016,8 +1016,7 @@ def sm_from_introspection(data):
 
     def ival(j):
         ts, ok = _i_typeref(j["type"])
-        if not ok:
-            raise ValueError("incomplete type reference for %s" % j.get("name"))
+        # (an incomplete chain shows up as "?" in the type text and is reported as a type difference)
         return {
             "name": j["name"],
             "description": j.get("description"),
@@ -1030,8 +1029,6 @@ def sm_from_introspection(data):
         out = []
         for r in lst:
             s, ok = _i_typeref(r)
-            if not ok:
-                raise ValueError("incomplete type reference")
             out.append(s)
         return out
 
@@ -1045,8 +1042,6 @@ def sm_from_introspection(data):
             fs = []
             for f in t["fields"]:
                 ts, ok = _i_typeref(f["type"])
-                if not ok:
-                    raise ValueError("incomplete type reference for field %s" % f["name"])
                 fs.append(
                     {
                         "name": f["name"],
